@@ -40,7 +40,7 @@ HandNeed(ln, g) == Need(g.edges, ln.blocks, ln.bonds) * MaxI(1, Need(g.edges, ln
 HandClauses(ln, z, g, nd) ==
   << <<"CapRespected", WithinCap(ln.bonds, ln.cap)>>,
      <<"BoundaryPartition", BlocksDisjoint(ln.blocks)>>,
-     <<"ExactWhenUntruncated", (Has(ln, "value") /\ Untruncated(ln, nd)) => (ln.ongrid /\ ln.value = z)>> >>
+     <<"ExactWhenUntruncated", (Has(ln, "value") /\ Untruncated(ln, nd)) => (ln.ongrid /\ Close(ln.value, z))>> >>
 
 CompressClauses(ln) ==
   << <<"CapRespected", ln.post <= ln.cap>>,
@@ -48,7 +48,7 @@ CompressClauses(ln) ==
 
 ReturnClauses(ln, z, nd) ==
   << <<"Returns", ln.exc = "" \/ Degenerate(ln)>>,
-     <<"ExactWhenUntruncated", (ln.exc = "" /\ Untruncated(ln, nd)) => (ln.ongrid /\ ln.result = z)>>,
+     <<"ExactWhenUntruncated", (ln.exc = "" /\ Untruncated(ln, nd)) => (ln.ongrid /\ Close(ln.result, z))>>,
      \* implementation-shaped model (C12_Approx / C12_Tree) against the observation: drift is a NOTE
      <<"NOTE:ModelSteps", (ln.exc = "" /\ Has(ln, "model_steps")) => ln.steps = ln.model_steps>>,
      <<"NOTE:ModelNeed", (ln.exc = "" /\ Has(ln, "model_need")) => nd = ln.model_need>> >>
@@ -60,7 +60,7 @@ EnvClaim(ln, g) ==
 EnvClauses(ln, z, g, nd) ==
   << <<"Returns", ln.exc = "">>,
      <<"EnvCovers", ln.exc = "" => CoversExactly(ln.cover, AtomsOf(EnvClaim(ln, g), g.nl))>>,
-     <<"EnvConsistent", ln.exc = "" => (ln.dangling = 0 /\ (Untruncated(ln, nd) => (ln.ongrid /\ ln.closedval = z)))>>,
+     <<"EnvConsistent", ln.exc = "" => (ln.dangling = 0 /\ (Untruncated(ln, nd) => (ln.ongrid /\ Close(ln.closedval, z))))>>,
      <<"CapRespected", ln.exc = "" => WithinCap(ln.bonds, ln.cap)>> >>
 
 Clauses(ln, z, g, nd) ==
